@@ -92,7 +92,16 @@ func (it *interp) callBody(body []*N, env *Env) compl {
 	}
 	it.frames = it.frames[:len(it.frames)-1]
 	kill(env)
+	if c.kind == cThrow {
+		markThrown(env)
+	}
 	return c
+}
+
+func markThrown(e *Env) {
+	for _, c := range e.vars {
+		c.ByThrow = true
+	}
 }
 
 func kill(e *Env) {
@@ -114,6 +123,9 @@ func (it *interp) block(stmts []*N, parent *Env, sameScope bool) (compl, any) {
 		c, v := it.stmt(s, env)
 		last = v
 		if c.kind != cNormal {
+			if c.kind == cThrow && !sameScope {
+				markThrown(env)
+			}
 			return c, last
 		}
 	}
@@ -428,6 +440,10 @@ func (it *interp) cell(name string, env *Env, write bool) *Cell {
 				}
 				if c.Dead {
 					it.events["closed_upvalue_access"]++
+					if c.ByThrow {
+						// the defining frame / block was unwound by a throw and the variable is still used
+						it.events["unwound_upvalue_access"]++
+					}
 				}
 				c.Captured = true
 			} else if c.Captured && write {
